@@ -28,7 +28,7 @@ fn meta() -> Meta {
     Meta {
         id: "C17",
         level: "exploration",
-        rule: "(a) every specification with <= 3 module names from {a, a::b, a::bc, a-b (a dash is part of the name, not an underscore), B (upper case: module names are case-sensitive), error, info} x 6 filters x optional default, built by LogSpecBuilder and by parse, round-tripped through Display, TOML and (<=1 name) the specfile; (b) every string of <= L tokens over {a, a::b, info, OFF, Warn, 5, bogus, =, ',', /, ' ', x(, e-acute, tab} plus single special code points in three contexts, against a reference parser (a text filter installed is exactly the text between the slashes; the entries of the result are, as a multiset, the well-formed parts - also when a name is given twice); distinct_nontrivial = distinct inputs that are either malformed or contain at least two well-formed parts; round trips also with text filters (whatever Display produces parses back); case-mapping look-alikes of level words among the special inputs; lists of 12 / 40 / 400 malformed parts with well-formed parts before, between and after them; one specification with 1500 module filters through every round trip",
+        rule: "(a) every specification with <= 3 module names from {a, a::b, a::bc, a-b (a dash is part of the name, not an underscore), B (upper case: module names are case-sensitive), error, info} x 6 filters x optional default, built by LogSpecBuilder and by parse, round-tripped through Display, TOML and (<=1 name) the specfile; (b) every string of <= L tokens over {a, a::b, info, OFF, Warn, 5, bogus, =, ',', /, ' ', x(, e-acute, tab} plus single special code points in three contexts, against a reference parser (a text filter installed is exactly the text between the slashes; the entries of the result are, as a multiset, the well-formed parts - also when a name is given twice); distinct_nontrivial = distinct inputs that are either malformed or contain at least two well-formed parts; round trips also with text filters (whatever Display produces parses back); case-mapping look-alikes of level words among the special inputs; lists of 12 / 40 / 400 malformed parts with well-formed parts before, between and after them; one specification with 1500 module filters through every round trip; a specfile that cannot be written when the logger creates it (file size limit 0): the start fails or the file reads back as the initial specification",
         assumptions: vec![
             "inputs with an empty module name or naming a module/default twice are only checked for no-panic and Ok/Err stability (outside the quantifier)".into(),
             "regex validity is decided by the regex crate".into(),
@@ -483,6 +483,55 @@ fn big_spec() -> RefSpec {
     }
 }
 
+
+/// The specfile cannot be written (file size limit 0: every write to a file fails with EFBIG)
+/// when the logger creates it: either the start fails, or what is in the file parses back to the
+/// initial specification - a start that reports success and leaves a file behind that the next
+/// start reads as a different specification breaks the round trip.
+fn specfile_write_fault() -> Result<&'static str, String> {
+    let sc = crate::scratch::Scratch::new("c17w");
+    let path = sc.path().join("spec.toml");
+    let r = RefSpec {
+        default: Some(LevelFilter::Info),
+        modules: vec![("a".into(), LevelFilter::Debug)],
+        regex: None,
+    };
+    let mut lim = libc::rlimit { rlim_cur: 0, rlim_max: 0 };
+    // SAFETY: plain signal / rlimit calls on this (single-threaded) worker process
+    unsafe {
+        libc::signal(libc::SIGXFSZ, libc::SIG_IGN);
+        if libc::getrlimit(libc::RLIMIT_FSIZE, &mut lim) != 0 {
+            return Err("getrlimit failed".into());
+        }
+        let zero = libc::rlimit { rlim_cur: 0, rlim_max: lim.rlim_max };
+        if libc::setrlimit(libc::RLIMIT_FSIZE, &zero) != 0 {
+            return Err("setrlimit failed".into());
+        }
+    }
+    let probe_fails = std::fs::write(sc.path().join("probe"), b"x").is_err();
+    let started = std::panic::catch_unwind(std::panic::AssertUnwindSafe(|| {
+        flexi_logger::Logger::with(r.build()).do_not_log().error_channel(flexi_logger::ErrorChannel::DevNull).build_with_specfile(&path).map(|(l, h)| {
+            drop(h);
+            drop(l);
+        })
+    }));
+    unsafe { libc::setrlimit(libc::RLIMIT_FSIZE, &lim) };
+    if !probe_fails {
+        return Err("machinery: a file could be written although the file size limit is 0".into());
+    }
+    match started {
+        Err(_) => Err("the start panicked".into()),
+        Ok(Err(_)) => Ok("start failed"),
+        Ok(Ok(())) => {
+            let text = std::fs::read_to_string(&path).unwrap_or_default();
+            match LogSpecification::from_toml(&text) {
+                Ok(back) if grid_of(&back, &TARGETS) == r.grid(&TARGETS) => Ok("start succeeded, file intact"),
+                other => Err(format!("the specfile could not be written (EFBIG), the start reported success, and the file left behind ({text:?}) reads back as {:?} instead of `{}`", other.map(|s| s.to_string()).map_err(|e| e.to_string()), r.text())),
+            }
+        }
+    }
+}
+
 fn run_unit(tier: &str, unit: usize, out: &mut Out) {
     let nrt = rt_units();
     if unit < nrt {
@@ -494,6 +543,15 @@ fn run_unit(tier: &str, unit: usize, out: &mut Out) {
             out.count("big_specification_roundtrips", 1);
             if let Err((clause, _, detail)) = check_roundtrip(&r, true) {
                 out.violation(Violation::new(&clause, "1500-module-filters", detail.chars().take(600).collect::<String>(), json!({"kind": "big-roundtrip"})));
+            }
+        }
+        if unit == 0 {
+            out.evaluations += 1;
+            match crate::run_isolated(std::time::Duration::from_secs(30), specfile_write_fault) {
+                crate::Ran::Done(Ok(o)) => out.outcome(format!("specfile write fault: {o}")),
+                crate::Ran::Done(Err(d)) => out.violation(Violation::new("roundtrip-specfile", "write-fault", d, json!({"kind": "specfile-write-fault"}))),
+                crate::Ran::Panicked(m) => out.violation(Violation::new("panic", "specfile-write-fault", m, json!({"kind": "specfile-write-fault"}))),
+                crate::Ran::Hung => out.violation(Violation::new("hang", "specfile-write-fault", String::new(), json!({"kind": "specfile-write-fault"}))),
             }
         }
         if unit == 0 {
@@ -580,6 +638,12 @@ fn replay(case: &Value) -> Vec<Violation> {
             println!("replay C17: from_toml({doc:?}) -> {:?}", LogSpecification::from_toml(doc).map(|x| x.to_string()));
             if let Ok(spec) = LogSpecification::from_toml(doc) {
                 out.violation(Violation::new("err!=malformed", "toml-level", format!("from_toml({doc:?}) returned Ok(`{spec}`)"), case.clone()));
+            }
+        }
+        Some("specfile-write-fault") => {
+            println!("replay C17: the specfile cannot be written when the logger creates it");
+            if let crate::Ran::Done(Err(d)) = crate::run_isolated(std::time::Duration::from_secs(30), specfile_write_fault) {
+                out.violation(Violation::new("roundtrip-specfile", "write-fault", d, case.clone()));
             }
         }
         Some("big-roundtrip") => {
